@@ -981,6 +981,11 @@ class OdeSystem(object):
 
         self.__fix_dt_dir(tf, self.__t[self.counter])
 
+        # the end slope an integrator keeps from its last step was computed with the right-hand side and the
+        # constants of the previous call: both can be changed between calls, so the first step re-evaluates it
+        for __integrator in (self.integrator, *getattr(self.integrator, "basis_integrators", ())):
+            __integrator.final_rhs = None
+
         if D.ar_numpy.abs(self.dt) > D.ar_numpy.abs(tf - self.__t[self.counter]):
             self.dt = D.ar_numpy.abs(tf - self.__t[self.counter]) * 0.5
 
